@@ -781,3 +781,56 @@ def check_match_objects_have_arguments(chk, ix):
         _fail(chk, "M12", nm.lookup("__init__"), "NoMatch().arguments = %r" % (None if args is KeyError else args,),
               "NoMatch() carries arguments %r, not a list" % (None if args is KeyError else args,))
     chk.require_instances("M12", 5)
+
+
+WHAT["M13"] = ("every matcher's check_match tells 'no match' (None) from 'matched without parameters' (an empty list): a step "
+               "definition without parameters is found")
+
+
+def check_cucumber_check_match(chk, ix):
+    """M13: StepMatcher4CucumberExpressions.check_match evaluated with the expression answering None / [] / one argument."""
+    chk.rule("M13", WHAT["M13"])
+    try:
+        mc = ix.cls("behave.cucumber_expression:StepMatcher4CucumberExpressions")
+    except AnalysisError:
+        raise AnalysisError("anchor missing: behave.cucumber_expression:StepMatcher4CucumberExpressions")
+    f = mc.lookup("check_match")
+    if f is None:
+        raise AnalysisError("anchor missing: StepMatcher4CucumberExpressions.check_match")
+    for label, answer in (("no match", None), ("matched, no parameters", 0), ("matched, one parameter", 1)):
+        def expr_match(it_, st_, a, k, n, _ans=answer):
+            if _ans is None:
+                return [(st_, "val", None)]
+            items = []
+            for i in range(_ans):
+                grp = st_.alloc(HObj("GroupTok", {"start": 2, "end": 4, "value": "42"}, label="group"))
+                items.append(st_.alloc(HObj("ArgTok", {"group": grp, "value": 42}, label="matched argument")))
+            return [(st_, "val", st_.alloc(HObj("list", kind="list", items=items)))]
+        made = []
+
+        def argument(it_, st_, a, k, n):
+            made.append(dict(k))
+            return [(st_, "val", st_.alloc(HObj("ArgumentTok", dict(k), label="Argument")))]
+        it = Interp(ix, stubs={"ExprTok.match": expr_match, "Argument": argument, "behave.model_core.Argument": argument}, name="cucumber check_match")
+        it.int_sat = 100
+        st = State()
+        st.frames = []
+        expr = st.alloc(HObj("ExprTok", {}, label="cucumber expression"))
+        me = st.alloc(HObj(mc, {"cucumber_expression": expr, "pattern": "I eat them all", "func": Top("func", True)}, label="matcher"))
+        outs = it.call_function(st, f, ["I eat them all"], {}, None, self_val=me)
+        chk.absorb(it)
+        chk.instance("M13")
+        if len(outs) != 1 or outs[0][1] != "val":
+            raise AnalysisError("check_match not evaluable (%s): %r" % (label, [(k, v) for _, k, v in outs][:2]))
+        s2, _, v = outs[0]
+        if answer is None:
+            got, want = v, None
+        else:
+            got = len(s2.obj(v).items) if isinstance(v, Ref) and s2.obj(v).kind == "list" and s2.obj(v).items is not None else repr(v)
+            want = answer
+        if got == want:
+            chk.ok("M13", {"expression.match": label, "check_match": "None" if want is None else "a list of %d argument(s)" % want}, nontrivial_key=label)
+        else:
+            _fail(chk, "M13", f, "%s -> %r" % (label, got), "the cucumber expression answers '%s', check_match returns %r (expected %s): a step "
+                  "definition without parameters never matches" % (label, got, "None" if want is None else "a list of %d" % want))
+    chk.require_instances("M13", 3)
